@@ -13,7 +13,7 @@ warnings.filterwarnings('ignore')
 
 # ----------------------------------------------------------------------------------------------- spec language
 def _num(v):
-    return float('nan') if v == 'nan' else v
+    return float(v) if v in ('nan', 'inf', '-inf') else v
 
 
 def _nums(v):
@@ -240,6 +240,7 @@ def base_universe():
     u = [none, ['b', True], ['b', False], ['i', 0], i1, i2, f1, ['f', 2.5], ['f', 0.0], nan, sa, ['s', 'b'], ['s', ''], ['s', '1'],
          ['dt', '2020-01-01T00:00:00'], ['dt', '2020-01-02T00:00:00'], ['ts', '2020-01-01'], ['dt64', '2020-01-01'], ['date', '2020-01-01'],
          ['np', 'float64', 1.0], ['np', 'float64', 'nan'], ['np', 'float32', 'nan'], ['np', 'float32', 1.0], ['np', 'int64', 1], ['np', 'int64', 0], ['np', 'bool_', True],
+         ['f', 'inf'], ['f', '-inf'], ['np', 'float64', 'inf'], A('float', [1.0, 'inf']), L(['f', 'inf']), L(['f', '-inf']), Dd(a=['f', 'inf']),
          L(), T(), Dd(), Dd('Dict'), A('float', []), A('int', [1]), A('float', [1.0]), A('int', [1, 2]), A('float', [1.0, 2.0]), A('int', [2, 1]),
          A('float', [1.0, 'nan']), A('float32', [1.0, 'nan']), A('int', [[1, 2]]), A('int', [[1], [2]]), A('int', [[1, 2], [3, 4]]), A('int', [[1, 2], [3, 5]]),
          A('int', [[1], [1]]), A('int', [[1, 1], [1, 1]]), A('int', [[1]]), A('str', ['a']), A('str', ['a', 'b']), A('bool', [True]),
